@@ -66,6 +66,22 @@ class Check(Operator):
             for comp in validation_element.components.values()
             if comp.role in [Role.IDENTIFIER, Role.MEASURE, Role.VIRAL_ATTRIBUTE]
         }
+        if measure.name != "bool_var":
+            # The validation outcome is always returned as bool_var, also when the operand
+            # is a plain Boolean dataset whose measure has another name.
+            result_components = {
+                ("bool_var" if name == measure.name else name): (
+                    Component(
+                        name="bool_var",
+                        data_type=Boolean,
+                        role=Role.MEASURE,
+                        nullable=measure.nullable,
+                    )
+                    if name == measure.name
+                    else comp
+                )
+                for name, comp in result_components.items()
+            }
         if imbalance_measure is None:
             result_components["imbalance"] = Component(
                 name="imbalance", data_type=Number, role=Role.MEASURE, nullable=True
